@@ -595,6 +595,38 @@ def circSolveHat (lhsHat rhsHat : Vec α N) : Vec α N := fun w => rhsHat w / lh
 
 end Circ
 
+/-! ### `MatrixSubproblemSolver.internal_init`: the arguments of `MatrixATADSolver(A, Csum, W)` -/
+
+/-- a `C_i` acceptable to `MatrixSubproblemSolver`: a `Diagonal` or a `MatrixOperator` with `p` rows -/
+inductive COp (α : Type) (n : Nat) where
+  | diag (d : Vec α n)
+  | mat (p : Nat) (M : Mat α p n)
+
+section MatrixSub
+variable {α : Type} [Add α] [Mul α] [Zero α] [One α] [HasConj α] {m n : Nat}
+
+/-- `c * D` for a `Diagonal` / `MatrixOperator` -/
+def DMat.smul (c : α) : DMat α n → DMat α n
+  | .diag d => .diag fun i => c * d i
+  | .full D => .full fun i j => c * D i j
+
+/-- `D1 + D2`: two `Diagonal`s give a `Diagonal`, anything else a `MatrixOperator` -/
+def DMat.add : DMat α n → DMat α n → DMat α n
+  | .diag a, .diag b => .diag fun i => a i + b i
+  | a, b => .full fun i j => a.entry i j + b.entry i j
+
+/-- `C.gram_op` (`Diagonal(conj(d) d)` resp. `MatrixOperator(Mᴴ M)`) -/
+def COp.gramD : COp α n → DMat α n
+  | .diag d => .diag fun i => conj (d i) * d i
+  | .mat _ M => .full fun i j => Vec.sum fun k => conj (M k i) * M k j
+
+/-- `Csum = reduce(+, [rho_i * C_i.gram_op]);  MatrixATADSolver(f.A, Csum, W = 2.0 * f.scale * f.W)` -/
+def matrixSubATAD (scale : α) (A : Mat α m n) (W : Vec α m) (terms : List (α × COp α n)) : Option (ATAD α m n) :=
+  (reduceAdd DMat.add (terms.map fun t => (t.2.gramD).smul t.1)).map fun D =>
+    { A := A, D := D, W := fun i => two * scale * W i }
+
+end MatrixSub
+
 /-! ### objective handed to `scipy` by `GenericSubproblemSolver` -/
 
 /-- `out = 0.0; for …: out += 0.5 * rho_i * sum(|z_i - u_i - C_i(x)|²);  out += f(x)` -/
